@@ -30,6 +30,10 @@ CHECKS["C04"] = dict(level="model_checking", engine="E1-enum",
    technique="enumeration of one configuration per structural class incl. exhaustive alignment-residue sweeps on the real packagers; structure validators plus independent readers (dpkg-deb, GNU tar, bsdtar, go-rpmutils)",
    text="Every entry template alone, the empty payload, pairs, every compression, scripts, signed variants (deb debsign/dpkg-sig x 4 compressions, rpm, apk with 2048/4096-bit keys), member names of 99..260 bytes and with odd characters, one destination spelled two ways, and exhaustive alignment sweeps (all 512 residues of the apk control segment, 64 for the deb ar members, 16 for rpm/ipk/archlinux; apk script lengths around 512/1024) are built; each package is walked end to end by harness validators (ar members and padding, tar block structure and end markers, apk segment rules, rpm lead/alignment/header-cpio correspondence and order, archlinux member order, tar name rules) and by an independent implementation.",
    note="Trusted: pkgread validators; dpkg-deb, GNU tar, bsdtar, go-rpmutils as second opinions when installed; rpm/apk-tools/pacman/opkg themselves are not in the image.", ref="§3 C04")
+CHECKS["C02"] = dict(level="model_checking", engine="E1-enum",
+   technique="exhaustive enumeration of the documented architecture table x formats x override, all optional-version-component combinations, <=1/2-deviation scalar fields, description shapes, relation-kind subsets and extras on the real packagers; control metadata parsed by harness parsers and compared with a reference Meta model",
+   text="Exhaustive over every GOARCH of the documentation (+undocumented pass-through values) x five formats x with/without <format>.arch; all 192 combinations of v-prefix/epoch/prerelease/metadata/release/schema; every scalar field x {ASCII, Unicode, punctuation} (thorough: pairs); 7 description shapes; every single relation kind and every pair of the 8 kinds in plain / versioned / same-name-twice form plus all 8 at once, rendered in each format's own syntax; every format extra alone and all together; non-linux platforms. Each is built fresh and again after ConventionalFileName on the same Info; deb/ipk control, rpm header tags, apk/archlinux .PKGINFO are parsed by the harness (dpkg-deb -f as second opinion) and compared field by field, including 'a relation kind without a slot must not surface elsewhere'. The architecture table is read from the documentation of the tree under test.",
+   note="Trusted: model/meta.go (version syntax per format, relation slots), pkgread parsers, the documentation table as the statement of the expected translation (ipk has none: only override/pass-through judged).", ref="§3 C02")
 NOT_YET = {}
 ALL = ["C%02d" % i for i in range(1, 18)]
 
